@@ -10,7 +10,7 @@ PY = '/venv/bin/python'
 # id -> (technique, level text, level note, DESIGN section)
 CHECKS = {
     'C20': ('bounded-exhaustive operation sequences + Hypothesis histories vs list+index model',
-            'every operation sequence up to depth 3 (quick) / 4 (thorough) over 73 operation templates and 13 '
+            'every operation sequence up to depth 3 over 73 operation templates (thorough: also depth 4 over a core of 24) and 13 '
             'string- and token-backed sources is executed on a fresh Buffer and on a list+index model, comparing '
             'return value, exception class and cursor after every step; random histories of up to 40 steps beyond, and histories on buffers of thousands of items whose single moves / look-aheads / scans span 33..1025 items. '
             'Exploration: absence is shown only within those bounds.',
@@ -20,7 +20,7 @@ CHECKS = {
 
 CHECKS['C18'] = (
     'bounded-exhaustive operation sequences + Hypothesis histories vs Python list model',
-    'every sequence up to depth 3 (quick; depth 4 over a reduced operation set in thorough) of ~100 list operations '
+    'every sequence up to depth 3 (quick: full set from two initial lists, depth 2 from five more, a reduced set of 62 at depth 3 from all seven; thorough: full set everywhere and depth 4 over the reduced set from two lists) of ~100 list operations '
     '(append/extend/insert at boundary indices/remove/pop/reverse/clear/indexing/slicing; object, coercible-string and '
     'mismatched-string arguments; textual twins) on argument lists of length 0..2 owned by a command is run against a '
     'Python list of the same objects: elements by identity, return values, exception classes, str(args), str(owner). '
@@ -30,7 +30,7 @@ CHECKS['C18'] = (
 
 CHECKS['C19'] = (
     'exhaustive code-point sweep + bounded-exhaustive strings + Hypothesis strings, two-pointer partition oracle',
-    'all 1,114,112 code points (alone and embedded) and every string of <=4 (quick) / <=5 (thorough) symbols over a '
+    'all 1,114,112 code points (alone and embedded) and every string of <=3 (quick) / <=4 (thorough) symbols over a '
     '37-symbol category/word alphabet are categorised and tokenised; oracle: one category item per character with its '
     'index; tokens non-empty, aligned left-to-right against the input skipping only NUL/DEL, each recording the offset '
     'where its text starts. Random strings up to 60 symbols and 14 units repeated to 25 exact lengths up to 70,001 characters beyond. Exhaustive within the stated bounds, exploration beyond.',
@@ -42,7 +42,7 @@ CHECKS['C01'] = (
     'documents are constructed from a grammar of the documented constructs together with their syntax tree; a '
     'normaliser repairs lexical hazards by construction (counted); oracle: parse succeeds, str(soup)==source, every '
     'node/argument/text leaf equals the source slice at its recorded position; plus the repository samples and '
-    'documentation literals. ~10k documents quick, ~350k thorough. Exploration.',
+    'documentation literals. ~10k documents quick, ~85k thorough. Exploration.',
     'trusts the generator/renderer (validated against the parser on >50k documents); includes synthetic long constructs, documents of up to 70K characters and chains nested as deeply as the pinned tree can handle',
     '3/C01')
 CHECKS['C02'] = (
@@ -82,7 +82,7 @@ CHECKS['C06'] = (
     'every string up to a length bound over three alphabets (one representative per character category and per token '
     'kind), random strings, all prefixes/deletions/transpositions/insertions of generated well-formed documents and '
     'chains of up to 40 nested constructs (random mixes and every opener alone at depths 10-40) are parsed in both tolerance modes under a watchdog; any outcome other than '
-    'a tree or one of the documented diagnostics is a leak. ~0.4M strings quick, ~15M thorough. Exhaustive within the '
+    'a tree or one of the documented diagnostics is a leak. ~0.35M strings quick, ~2M thorough. Exhaustive within the '
     'length bounds, exploration beyond.',
     'the watchdog (30 s, re-run 120 s) decides "hang"; documented diagnostics are recognised by type and message fragment',
     '3/C06')
